@@ -23,6 +23,6 @@ U2(q) == UNION {{<<q[i], q[j]>> : j \in i..Len(q)} : i \in 1..Len(q)}
 U3(q) == UNION {UNION {{<<q[i], q[j], q[k]>> : k \in j..Len(q)} : j \in i..Len(q)} : i \in 1..Len(q)}
 U4(q) == UNION {UNION {UNION {{<<q[i], q[j], q[k], q[m]>> : m \in k..Len(q)} : k \in j..Len(q)} : j \in i..Len(q)} : i \in 1..Len(q)}
 
-ScenQuick == U2(All) \cup U3(Core)
+ScenQuick == U2(All) \cup U3(Core4)
 ScenAll == U2(All) \cup U3(Core) \cup U4(Core4)
 =============================================================================
